@@ -27,7 +27,7 @@ HARNESSES = [
         G + '.isIDValid': G + '.stubIsIDValid', '(*text/template.Template).Execute': G + '.stubExecute',
     }, ['text/template', 'embed', 'regexp'], 'Generate/prepare/renderTemplate with os.Stat/Mkdir/OpenFile, isIDValid and template.Execute as nondeterministic stubs; 3 -out values x 3 names'),
     ('names', GEN_REL, G, 'golang', 'harnessC16Names', {'(*regexp.Regexp).MatchString': G + '.stubMatchIdent'},
-     ['text/template', 'embed', 'regexp'], 'isIDValid on the 25 keywords and 44 predeclared identifiers of the Go specification, 18 usable and 9 malformed names (the regular expression replaced by its ASCII meaning): accepted iff usable'),
+     ['text/template', 'embed', 'regexp'], 'isIDValid on the 25 keywords and 44 predeclared identifiers of the Go specification, 17 usable and 10 unusable names (malformed ones and the blank identifier) (the regular expression replaced by its ASCII meaning): accepted iff usable'),
     ('run', CMD_REL, C, 'command', 'harnessC16Run', {
         'os.Open': C + '.stubOpen', '(*os.File).Close': C + '.stubClose', C + '.getPlant': C + '.stubRune', C + '.getAnimal': C + '.stubRune', C + '.getFruit': C + '.stubRune',
     }, [], 'Command.Run with os.Open, Parse and Generate as nondeterministic stubs; 4 argument lists x -out x -name x -debug'),
